@@ -71,6 +71,10 @@ def gen_index(rng, n, allow_bad=True):
             if s < 0 and bb < 0:
                 bb = -1  # range(a, -1, -1) counts down to 0
             return {"t": "range", "a": a, "b": bb, "s": s}
+        if rng.chance(0.5):
+            # contiguous range overshooting the end / starting before the start
+            a = rng.randint(0, n)
+            return {"t": "range", "a": a, "b": n + rng.randint(1, 3), "s": rng.pick([1, 1, 2])}
         return {"t": "range", "a": rng.randint(lo, hi), "b": rng.randint(lo, hi), "s": s}
     m = n if not bad else max(0, n + rng.pick([-1, 1]))
     return {"t": "mask", "m": [rng.chance(0.5) for _ in range(m)]}
